@@ -36,6 +36,7 @@ import (
 	metav1 "k8s.io/apimachinery/pkg/apis/meta/v1"
 	"k8s.io/apimachinery/pkg/util/validation/field"
 
+	xpv1 "github.com/crossplane/crossplane-runtime/apis/common/v1"
 	"github.com/crossplane/crossplane-runtime/pkg/parser"
 
 	pkgmetav1 "github.com/crossplane/crossplane/apis/pkg/meta/v1"
@@ -117,6 +118,69 @@ func (nopConfig) ImageVerificationConfigFor(context.Context, string) (string, *v
 	return "", nil, nil
 }
 
+// scriptedHooks are the runtime hooks of a package with a runtime (deployment,
+// service, ...): each of them can fail, e.g. Post while the deployment is not
+// available yet.
+type scriptedHooks struct {
+	FailPre, FailPost, FailDeactivate bool
+	posts                             int
+}
+
+func (s *scriptedHooks) Pre(context.Context, runtime.Object, v1.PackageRevisionWithRuntime, revision.ManifestBuilder) error {
+	if s.FailPre {
+		return fmt.Errorf("c16 hook: cannot apply the runtime service account")
+	}
+	return nil
+}
+
+func (s *scriptedHooks) Post(context.Context, runtime.Object, v1.PackageRevisionWithRuntime, revision.ManifestBuilder) error {
+	s.posts++
+	if s.FailPost {
+		return fmt.Errorf("c16 hook: the runtime deployment is not available yet")
+	}
+	return nil
+}
+
+func (s *scriptedHooks) Deactivate(context.Context, v1.PackageRevisionWithRuntime, revision.ManifestBuilder) error {
+	if s.FailDeactivate {
+		return fmt.Errorf("c16 hook: cannot delete the runtime deployment")
+	}
+	return nil
+}
+
+func (s *scriptedHooks) String() string {
+	if s == nil {
+		return "-"
+	}
+	var out []string
+	for n, b := range map[string]bool{"pre": s.FailPre, "post": s.FailPost, "deactivate": s.FailDeactivate} {
+		if b {
+			out = append(out, n)
+		}
+	}
+	sort.Strings(out)
+	if len(out) == 0 {
+		return "-"
+	}
+	return strings.Join(out, "+") + " fail"
+}
+
+// recordingEstablisher tells the oracle whether the reconcile's Establish call succeeded.
+type recordingEstablisher struct {
+	revision.Establisher
+	h *hworld
+}
+
+func (e recordingEstablisher) Establish(ctx context.Context, objs []runtime.Object, parent v1.PackageRevision, control bool) ([]xpv1.TypedReference, error) {
+	refs, err := e.Establisher.Establish(ctx, objs, parent, control)
+	e.h.sim.With(func(*verifsim.View) {
+		if e.h.cur != nil {
+			e.h.cur.EstOK = err == nil
+		}
+	})
+	return refs, err
+}
+
 var (
 	metaScheme, _ = xpkg.BuildMetaScheme()
 	objScheme, _  = xpkg.BuildObjectScheme()
@@ -174,7 +238,10 @@ type hworld struct {
 	secret                       map[string]string // package -> "ok" | "none"
 	reject                       *verifsim.Key
 	hist                         []string
-	excluded                     bool // contents were steered away from an open known finding
+	excluded                     bool            // contents were steered away from an open known finding
+	hooks                        *scriptedHooks  // hooks of the next reconcile (nil = never fail)
+	postDown                     map[string]bool // revisions whose post-establish hook keeps failing (deployment never available)
+	postFailedAfterEstablish     int
 	limit                        int
 	tookOver, refusals, upgrades int
 }
@@ -344,10 +411,10 @@ func (h *hworld) liveKey(o objSpec, pkg string, active bool) verifsim.Key {
 func (h *hworld) reconcile(rev string, faults map[int]verifsim.Fault) (reconcile.Result, error, *verifsim.Run) {
 	run := h.sim.NewRun(estActor+":"+rev, faults)
 	c := run.Client()
-	r := revision.NewReconciler(&fakeManager{c: c, scheme: h.sim.Scheme},
+	opts := []revision.ReconcilerOption{
 		revision.WithCache(h.cache),
 		revision.WithDependencyManager(nopLock{}),
-		revision.WithEstablisher(revision.NewAPIEstablisher(c, ns, h.limit)),
+		revision.WithEstablisher(recordingEstablisher{Establisher: revision.NewAPIEstablisher(c, ns, h.limit), h: h}),
 		revision.WithNewPackageRevisionFn(h.fl.newRev),
 		revision.WithParser(parser.New(metaScheme, objScheme)),
 		revision.WithParserBackend(noBackend{}),
@@ -355,7 +422,16 @@ func (h *hworld) reconcile(rev string, faults map[int]verifsim.Fault) (reconcile
 		revision.WithLinter(h.fl.linter()),
 		revision.WithNamespace(ns),
 		revision.WithServiceAccount("crossplane"),
-	)
+	}
+	if h.fl.Runtime {
+		// Provider and function revisions run with runtime hooks (SetupProviderRevision / SetupFunctionRevision).
+		hooks := h.hooks
+		if hooks == nil {
+			hooks = &scriptedHooks{}
+		}
+		opts = append(opts, revision.WithRuntimeHooks(hooks))
+	}
+	r := revision.NewReconciler(&fakeManager{c: c, scheme: h.sim.Scheme}, opts...)
 	res, err := r.Reconcile(context.Background(), reconcile.Request{NamespacedName: types.NamespacedName{Name: rev}})
 	return res, err, run
 }
@@ -381,11 +457,29 @@ func (h *hworld) step(rec *verifkit.Recorder, rev string, faults map[int]verifsi
 	if len(faults) > 0 {
 		h.limit = 1
 	}
+	hooks := h.hooks
+	if h.fl.Runtime && h.postDown[rev] {
+		if hooks == nil {
+			hooks = &scriptedHooks{}
+		}
+		hooks.FailPost = true
+	}
+	if !h.fl.Runtime {
+		hooks = nil
+	}
+	h.hooks = hooks
 	res, err, run := h.reconcile(rev, faults)
+	h.hooks = nil
 	h.limit = limit
 	h.cur = nil
 	ok := err == nil && !res.Requeue //nolint:staticcheck // the reconciler still uses Requeue
-	h.logf("reconcile %s [%s control=%v must-fail=%q faults=%v] -> ok=%v calls=%d", rev, p.Mode, p.Control, p.Must, faultString(faults), ok, run.N)
+	h.logf("reconcile %s [%s control=%v must-fail=%q faults=%v hooks=%v] -> ok=%v calls=%d", rev, p.Mode, p.Control, p.Must, faultString(faults), hooks, ok, run.N)
+	// Which scripted hook failures apply to this reconcile: Deactivate runs for every
+	// inactive revision, Pre and Post around Establish.
+	hookFailed := hooks != nil && ((p.Mode != "deleting" && !p.Control && hooks.FailDeactivate) || (p.Mode == "establish" && (hooks.FailPre || hooks.FailPost)))
+	if cc.EstOK && cc.StatusAfterEst > 0 {
+		rec.Label("status-write-after-establish")
+	}
 	where := "reconcile of " + rev
 	if vs := h.sim.TakeViolations(); len(vs) > 0 {
 		h.failf("%s:\n  %s", where, strings.Join(vs, "\n  "))
@@ -417,6 +511,19 @@ func (h *hworld) step(rec *verifkit.Recorder, rev string, faults map[int]verifsi
 		if !p.Control {
 			h.noControl(where, rv)
 		}
+	case p.Mode == "establish" && hookFailed && !ok:
+		rec.Label("reconcile:hook-failed")
+		if cc.EstOK {
+			// Establish itself succeeded; the reconcile failed afterwards (post-establish hook).
+			rec.Labelf("establish:ok-then-post-hook-failed control=%v", p.Control)
+			h.postFailedAfterEstablish++
+			h.checkEstablished(where, rv, pkg, p.Control, p.Keys, p.Exist, p.Owned)
+			if !p.Control {
+				h.noControl(where, rv)
+			}
+		}
+	case p.Mode == "release" && hookFailed && !ok:
+		rec.Label("reconcile:hook-failed")
 	case p.Mode == "establish" && !injected:
 		rec.Label("establish:unexpected-error")
 		h.failf("harness/model: %s failed without faults although nothing refuses: %v (%+v)", where, err, res)
@@ -540,6 +647,9 @@ func genFaults(t *rapid.T) map[int]verifsim.Fault {
 func newHWorld(fl flavour, fail func(string, ...any), limit int, withSecret map[string]bool) *hworld {
 	h := &hworld{world: newWorld(fl, fail), cache: &memCache{m: map[string][]byte{}}, revs: map[string]*hrev{}, order: map[string][]string{}, secret: map[string]string{}}
 	h.limit = limit
+	h.postDown = map[string]bool{}
+	// The core Crossplane service account the reconciler reads for packages with a runtime.
+	h.sim.MustCreate("helm", &corev1.ServiceAccount{ObjectMeta: metav1.ObjectMeta{Name: "crossplane", Namespace: ns}})
 	for _, pkg := range []string{"alpha", "beta"} {
 		h.addPackage(pkg)
 		h.secret[pkg] = "none"
@@ -649,7 +759,7 @@ func setupHistory(t *rapid.T, fail func(string, ...any)) *hworld {
 
 func (h *hworld) action(t *rapid.T, rec *verifkit.Recorder) {
 	all := []string{"alpha-r1", "alpha-r2", "alpha-r3", "beta-r1"}
-	switch a := rapid.SampledFrom([]string{"reconcile", "reconcile", "reconcile", "reconcile", "reconcile", "switch", "switch", "create-inactive", "delete", "reject", "beta"}).Draw(t, "action"); a {
+	switch a := rapid.SampledFrom([]string{"reconcile", "reconcile", "reconcile", "reconcile", "reconcile", "switch", "switch", "create-inactive", "delete", "reject", "beta", "post-down"}).Draw(t, "action"); a {
 	case "reconcile":
 		var live []string
 		for _, n := range all {
@@ -660,7 +770,24 @@ func (h *hworld) action(t *rapid.T, rec *verifkit.Recorder) {
 		if len(live) == 0 {
 			return
 		}
-		h.step(rec, rapid.SampledFrom(live).Draw(t, "rev"), genFaults(t))
+		rev := rapid.SampledFrom(live).Draw(t, "rev")
+		faults := genFaults(t)
+		if h.fl.Runtime && rapid.IntRange(0, 2).Draw(t, "hooks") == 0 {
+			h.hooks = &scriptedHooks{
+				FailPost:       rapid.IntRange(0, 1).Draw(t, "failpost") == 0,
+				FailPre:        rapid.IntRange(0, 5).Draw(t, "failpre") == 0,
+				FailDeactivate: rapid.IntRange(0, 5).Draw(t, "faildeactivate") == 0,
+			}
+		}
+		h.step(rec, rev, faults)
+	case "post-down":
+		if !h.fl.Runtime {
+			return
+		}
+		rev := rapid.SampledFrom(h.order["alpha"]).Draw(t, "postdown")
+		h.postDown[rev] = !h.postDown[rev]
+		h.logf("post hook of %s keeps failing: %v", rev, h.postDown[rev])
+		rec.Label("action:post-down")
 	case "switch":
 		rev := rapid.SampledFrom(h.order["alpha"]).Draw(t, "to")
 		if st := h.state(rev); st.Terminating || (st.Exists && st.Active) {
@@ -728,7 +855,8 @@ func newHistory(t *rapid.T, fail func(string, ...any)) *hworld { return setupHis
 // without faults; then the active revision must hold everything it ships.
 func (h *hworld) finish(rec *verifkit.Recorder) {
 	h.reject = nil
-	h.logf("admission: clear (end)")
+	h.postDown = map[string]bool{}
+	h.logf("admission: clear, hooks healthy (end)")
 	for round := 0; round < 3; round++ {
 		// Inactive revisions first: an active revision cannot take objects over before
 		// its predecessor gave them up.
@@ -767,6 +895,9 @@ func TestVerifC16Histories(t *testing.T) {
 		h.finish(rec)
 		if h.refusals > 0 || h.tookOver > 0 {
 			rec.NonTrivial(strings.Join(h.hist, ";"), func() any { return map[string]any{"history": append([]string(nil), h.hist...)} })
+		}
+		if h.postFailedAfterEstablish > 0 {
+			rec.Label("history:post-hook-failed-after-establish")
 		}
 		if h.tookOver > 0 {
 			rec.Label("history:took-over-shared")
